@@ -79,6 +79,7 @@ class LedgerGen:
             self.ops.append(f"bal {a}")
             self.ops.append(f"nonce {a}")
             self.ops.append(f"code {a}")
+            self.ops.append(f"codehash {a}")
 
     def tx(self):
         """one 'transaction': optional snapshot, a few reads/writes, optional revert, finalise"""
@@ -125,7 +126,21 @@ class LedgerGen:
             self.ops.append(f"{second} {a} {k} {self.val()}")
         if r.random() < 0.4:
             self.ops.append(f"set {a} {r.choice(KEYS)} {self.val()}")
+        acct_field = None
+        if r.random() < 0.35:
+            # the failed transaction also wrote an account field (code / balance / nonce): reverted with the rest
+            acct_field = r.choice(["code", "code", "bal", "nonce"])
+            if acct_field == "code":
+                c = r.choice(list(CODES))
+                self.ops.append(f"setcode {a} {c} {CODES[c]}")
+            elif acct_field == "bal":
+                self.ops.append(f"setbal {a} {r.choice([1, 5, 100])}")
+            else:
+                self.ops.append(f"setnonce {a} {r.choice([1, 2, 7])}")
+            self.tags.add("scripted-revert:account-" + acct_field)
         self.ops.append("revert 0")
+        if acct_field is not None:
+            self.ops += [f"code {a}", f"codehash {a}", f"bal {a}", f"nonce {a}"]
         self.ops.append("finalise")
         self.ops.append(f"get {a} {k}")
         self.tags.add(f"scripted-revert:{first}-{second}")
@@ -322,6 +337,7 @@ def mon_ledger(h, obs, prop):
     unsynced = False     # after an un-journaled Add or an op the reference cannot follow we resync on dumps only
     after_rollback = False
     after_refused = False
+    code_hash = {}
 
     def hit(p, fp, msg, detail=None):
         if p == prop:
@@ -372,6 +388,8 @@ def mon_ledger(h, obs, prop):
         elif k0 == "setcode":
             ref.journal.append(("code", ws[1], ref.code.get(ws[1])))
             ref.code[ws[1]] = ws[2]
+            if len(ws) > 3:
+                code_hash[ws[2]] = ws[3]
         elif k0 == "snap":
             ref.snaps.append((int(o) if o.isdigit() else len(ref.snaps), len(ref.journal)))
         elif k0 == "revert":
@@ -480,6 +498,16 @@ def mon_ledger(h, obs, prop):
                 else:
                     hit(p, f"{p}/read-not-latest-write/code", f"code {ws[1]} returned {o!r} but the latest write is {want!r}", op)
                 ref.code[ws[1]] = got
+        elif k0 == "codehash":
+            cd = ref.code.get(ws[1])
+            empty = ref.bal.get(ws[1], 0) == 0 and ref.nonce.get(ws[1], 0) == 0 and cd is None
+            want = None if (cd is None or empty) else code_hash.get(cd)
+            got = None if o == "-" else o
+            if cd is not None and want is None:
+                pass       # hash of this code unknown to the reference
+            elif got != want:
+                p = "C12" if (after_rollback or after_refused) and prop == "C12" else "C13"
+                hit(p, f"{p}/read-not-latest-write/codehash", f"codehash {ws[1]} returned {o!r} but the code of the account is {cd!r} (hash {want!r})", op)
         elif k0 == "query":
             a, pfx = ws[1], ("" if ws[2] == "~" else ws[2])
             want = sorted(v for (aa, kk), v in ref.st.items() if aa == a and v is not None and ("" if kk == "~" else kk).startswith(pfx))
